@@ -276,27 +276,91 @@ structure PDist where
   params : List Rat
 deriving DecidableEq, Repr, Inhabited
 
-/-- `ast.literal_eval` on `( number , number )` / `(number)`: the parenthesised comma-separated numeric literals the
-documentation uses (anything else is outside the model: `distTuple`) -/
-def parseTuple (s : Str) : PR (List Rat × Bool) :=
-  let t := strip s
-  match t, t.getLast? with
-  | '(' :: _, some ')' =>
-    let inner := (t.drop 1).take (t.length - 2)
-    let parts := splitOn ',' inner
-    let isTuple := parts.length > 1
-    -- a trailing comma `(1, 2,)` is legal Python (and `(1,)` is a 1-tuple, not a number)
-    let parts := match parts.getLast? with
-      | some l => if (strip l).isEmpty && parts.length > 1 then parts.take (parts.length - 1) else parts
-      | none => parts
-    match parts.mapM (m := PR) (fun p =>
-      -- a Python *literal*: `01` is a SyntaxError although `float("01")` is fine
-      let u := match strip p with | '-' :: r => r | '+' :: r => r | r => r
-      if u.length > 1 && u.all (fun c => c.isDigit || c == '_') && u.head? == some '0' && u.any (fun c => c != '0' && c != '_') then .error .distTuple else
-      match parseFloat p with | .ok q => .ok q | .nonFinite => .error .nonFinite | .bad => .error .distTuple) with
+/-- value of a Python literal expression made of numbers, signs, parentheses and tuples -/
+inductive PyVal | num (q : Rat) | tup (l : List PyVal)
+deriving Repr, Inhabited
+
+def isNumChar (c : Char) : Bool := c.isDigit || c.isAlpha || c == '.' || c == '_'
+
+/-- the characters of one numeric token: digits, letters, `.`, `_`, and a sign directly after an exponent letter -/
+def takeNumber : Str → Str → Str × Str
+  | acc, [] => (acc.reverse, [])
+  | acc, c :: cs =>
+    if isNumChar c then takeNumber (c :: acc) cs
+    else if (c == '+' || c == '-') && (match acc with | e :: d :: _ => (e == 'e' || e == 'E') && (d.isDigit || d == '.' || d == '_') | _ => false) then takeNumber (c :: acc) cs
+    else (acc.reverse, c :: cs)
+
+/-- one numeric literal: `01` is a SyntaxError although `float("01")` is fine -/
+def numberLit (u : Str) : PR Rat :=
+  if u.length > 1 && u.all (fun c => c.isDigit || c == '_') && u.head? == some '0' && u.any (fun c => c != '0' && c != '_') then .error .distTuple else
+  if u.head? == some '_' || u.head? == some '+' || u.head? == some '-' then .error .distTuple else
+  match parseFloat u with | .ok q => .ok q | .nonFinite => .error .nonFinite | .bad => .error .distTuple
+
+def skipWs (s : Str) : Str := s.dropWhile isWs
+
+mutual
+/-- `sign* ( '(' items ')' | number )` -/
+def pyValue : Nat → Str → PR (PyVal × Str)
+  | 0, _ => .error .distTuple
+  | f + 1, s =>
+    match skipWs s with
+    | '-' :: r =>
+      match pyValue f r with
+      | .ok (.num q, rest) => .ok (.num (-q), rest)
+      | .ok (.tup _, _) => .error .distTuple
+      | .error e => .error e
+    | '+' :: r =>
+      match pyValue f r with
+      | .ok (.num q, rest) => .ok (.num q, rest)
+      | .ok (.tup _, _) => .error .distTuple
+      | .error e => .error e
+    | '(' :: r =>
+      match skipWs r with
+      | ')' :: rest => .ok (.tup [], rest)
+      | _ =>
+        match pyItems f r [] false with
+        | .error e => .error e
+        | .ok (items, comma, rest) =>
+          if comma then .ok (.tup items, rest)
+          else match items with
+            | [v] => .ok (v, rest)
+            | _ => .error .distTuple
+    | t =>
+      let (tok, rest) := takeNumber [] t
+      if tok.isEmpty then .error .distTuple else
+      match numberLit tok with
+      | .error e => .error e
+      | .ok q => .ok (.num q, rest)
+/-- `value (',' value)* [','] ')'` -/
+def pyItems : Nat → Str → List PyVal → Bool → PR (List PyVal × Bool × Str)
+  | 0, _, _, _ => .error .distTuple
+  | f + 1, s, acc, comma =>
+    match pyValue f s with
     | .error e => .error e
-    | .ok l => .ok (l, isTuple)
-  | _, _ => .error .distTuple
+    | .ok (v, rest) =>
+      match skipWs rest with
+      | ')' :: rest' => .ok (acc ++ [v], comma, rest')
+      | ',' :: rest' =>
+        match skipWs rest' with
+        | ')' :: rest'' => .ok (acc ++ [v], true, rest'')
+        | _ => pyItems f rest' (acc ++ [v]) true
+      | _ => .error .distTuple
+end
+
+/-- `ast.literal_eval` restricted to what a distribution's argument text can denote: numbers, signs, redundant parentheses,
+tuples, surrounding white space and a trailing `#` comment.  Returns the numbers and whether the value is a tuple. -/
+def parseTuple (s : Str) : PR (List Rat × Bool) :=
+  let noComment := s.takeWhile (· != '#')
+  match pyValue (2 * noComment.length + 4) noComment with
+  | .error e => .error e
+  | .ok (v, rest) =>
+    if !(skipWs rest).isEmpty then .error .distTuple else
+    match v with
+    | .num q => .ok ([q], false)
+    | .tup l =>
+      match l.mapM (m := PR) (fun x => match x with | .num q => .ok q | .tup _ => .error .distTuple) with
+      | .error e => .error e
+      | .ok qs => .ok (qs, true)
 
 def famText : FamilyName → String
   | .florySchulz => "flory_schulz" | .gauss => "gauss" | .uniform => "uniform" | .schulzZimm => "schulz_zimm"
@@ -329,6 +393,8 @@ def parseDist (text : Str) : PR PDist :=
         if ps.length != famArity fam then .error .distTuple else
         -- `float(make_tuple(…))` needs a parenthesised number, `a, b = make_tuple(…)` a tuple
         if isTuple != (famArity fam == 2) then .error .distTuple else
+        -- `z = Mn / (Mw - Mn)` in `SchulzZimm.__init__`: ZeroDivisionError for equal averages
+        if fam == .schulzZimm && (match ps with | [a, b] => a == b | _ => false) then .error .pyValue else
         if fam == .uniform then .ok { fam := fam, params := ps.map truncRat } else .ok { fam := fam, params := ps }
 
 def intStr (q : Rat) : Str :=
